@@ -27,6 +27,8 @@ func c15(c *Ctx) {
 	r.Rule("C15.paired", "every function that stores newCompressionWriter on a published Conn stores newDecompressionReader on the same paths, with compressNoContextTakeover / decompressNoContextTakeover")
 	r.Rule("C15.reader-gate", "a frame with RSV1 is refused unless a decompressor is configured (C04.header-guards class RSV1) and readDecompress follows RSV1 of each frame (C03.inflate-iff-rsv1)")
 	r.Rule("C15.writer-gate", "RSV1 is set only when compression was negotiated, is enabled and the message is data (C02.rsv1)")
+	r.Rule("C15.prepared-gate", "a PreparedMessage is sent compressed only to a connection that negotiated compression: prepareKey.compress == (newCompressionWriter != nil && enableWriteCompression && isData), and the private rendering Conn compresses iff key.compress with compressNoContextTakeover (same rules as C19.key-agrees / C19.key-complete)")
+	c.borrow(c19, map[string]string{"C19.key-agrees": "C15.prepared-gate", "C19.key-complete": "C15.prepared-gate"})
 	r.Rule("C15.level-range", "Conn.compressionLevel is assigned only the default constant or a value that passed isValidCompressionLevel, whose bounds equal the index range of flateWriterPools; compressNoContextTakeover indexes the pools with level - minCompressionLevel")
 	r.Table("PreparedMessage.frame's private Conn sets only newCompressionWriter (it never reads): reviewed exception to C15.paired")
 
@@ -283,6 +285,7 @@ func c15levels(c *Ctx) {
 		})
 		r.Check("C15.level-range", shortFn(fn), "store-validated-level", st.Pos(), ok && n > 0, why)
 	}
+	compressorDeflates(c, "C15.level-range")
 	// index expression in compressNoContextTakeover
 	{
 		fn := c.fn("compressNoContextTakeover")
@@ -302,4 +305,43 @@ func c15levels(c *Ctx) {
 		}
 		r.Check("C15.level-range", shortFn(fn), "pool-index-is-level-minus-min", fn.Pos(), ok, "flateWriterPools must be indexed with level - minCompressionLevel")
 	}
+}
+
+// compressorDeflates: every level goes through flate, so the RSV1 bit NextWriter sets is always backed by a deflate stream.
+func compressorDeflates(c *Ctx, rule string) {
+	r := c.R
+	fn := c.fn("compressNoContextTakeover")
+	ok, why := true, "every path returns a fresh *flateWriteWrapper whose flate.Writer (flate.NewWriter(tw, level), or a pooled one Reset onto tw) writes through a truncWriter over w"
+	n := 0
+	c.explore(rule, fn, core.Opts{}, func(p *core.Path) {
+		if p.End != core.EndReturn || len(p.Results) != 1 {
+			return
+		}
+		n++
+		res := p.Results[0]
+		if res.Kind != core.KMakeIface || strip(res).Kind != core.KAlloc {
+			ok, why = false, "compressNoContextTakeover returns "+res.String()+" at "+c.P.Pos(p.Ret.Pos())+" instead of a deflating wrapper: the frame is still marked RSV1 by NextWriter but carries bytes that are not a deflate stream"
+			return
+		}
+		wrapped := false
+		for i := range p.Events {
+			ev := &p.Events[i]
+			if ev.Kind != core.EvCall || ev.Static == nil {
+				continue
+			}
+			switch extName(ev.Static) {
+			case "compress/flate.NewWriter":
+				wrapped = true
+				if len(ev.Args) != 2 || strip(ev.Args[1]).Kind != core.KParam {
+					ok, why = false, "flate.NewWriter is not given the requested level"
+				}
+			case "(*compress/flate.Writer).Reset":
+				wrapped = true
+			}
+		}
+		if !wrapped {
+			ok, why = false, "a path of compressNoContextTakeover neither creates nor resets a flate.Writer"
+		}
+	})
+	r.Check(rule, shortFn(fn), "every-level-deflates", fn.Pos(), ok && n > 0, why)
 }
